@@ -448,7 +448,17 @@ def mon_C09(case):
 
 def mon_C10(case):
     shards = case.cfg["shards"]
+    lost = False
     for st, pre, post, fifo, ex in Walk(case):
+        if post is not pre and not post["shut"] and not lost:
+            # liveness side, call-atomic histories: every call updates store and index within ONE step, so after every step a
+            # held, charged key whose own deadline has passed must be within reach of the sweeper — its id in the expiry index
+            # under its deadline; otherwise no sweep will ever reclaim it (`TtlInv`; Layer B has the same clause with causes)
+            for k, e in post["store"].items():
+                if e["expiry"] is not None and post["now"] > e["expiry"] and e["id"] in post["kw"] and not any(i == e["id"] for (_sh, i, _x) in post["ttl"]):
+                    lost = True
+                    yield finding("C10", st, f"key {k} (id {e['id']}) has expired (deadline {e['expiry']}, clock {post['now']}) and is still held and charged, but the expiry index has no entry for its id: no sweep will ever remove it", "C10/expired-key-unsweepable/layerA")
+                    break
         if post is pre or st.kind != "sweep" or not st.out.startswith("swept"):
             continue
         now = pre["now"]
